@@ -573,7 +573,7 @@ REAL_VARIANTS = [
      ('g2', 'q1', S.BACKOFF, 'cmd:cmd_dir'), ('solo', 'solo', S.STOPPED, "rawcmd:cat 'unbalanced")],
     # real dispatchers and log handlers: rd:<what write() on the child's stdin does>:<syslog channels>[+file]
     [('g1', 'p1', S.RUNNING, 'rd:full:'), ('g1', 'p2', S.RUNNING, 'rd:closed:out+file'),
-     ('g2', 'q1', S.RUNNING, 'rd:partial:out,err'), ('solo', 'solo', S.STARTING, 'rd:wouldblock:err+file')],
+     ('g2', 'q1', S.RUNNING, 'rd:partial:out,err'), ('solo', 'solo', S.STARTING, 'rd:dispclosed:err+file')],
 ]
 
 
@@ -632,6 +632,10 @@ class RealWorld(World):
                 if not hasattr(opts, 'stdin_mode'):
                     opts.stdin_mode = {}
                 opts.stdin_mode[proc.pipes['stdin']] = mode
+                if mode == 'dispclosed':
+                    # the main loop got EPIPE on an earlier flush and closed the stdin dispatcher
+                    # (real PInputDispatcher.close()); it stays registered until the child is reaped
+                    proc.dispatchers[proc.pipes['stdin']].close()
                 groups[g].processes[p] = proc
                 continue
             if quirk and quirk.startswith('cmd:'):
